@@ -191,3 +191,7 @@ def run(ctx):
     # "everything a stream references is completely present" needs the references to be exact: a memory descriptor names the bytes
     # that WERE appended (their location), not the bytes that were asked for (same rule instance as C01/size-origin)
     c01.rule_size_origin(ctx, R="C10/references-are-written")
+    # ... and a string blob declares exactly the bytes that were appended for it (same rule instance as C16/string): a header that
+    # claims more reaches past what has arrived when the stream's entry is flushed
+    from rules import c16
+    c16.rule_string(ctx, R="C10/strings-are-written")
